@@ -2,8 +2,8 @@ package ksim
 
 import (
 	"bufio"
-	"fmt"
 	"encoding/json"
+	"fmt"
 	"os"
 	"strconv"
 	"testing"
